@@ -210,19 +210,27 @@ func insertMethod(class, super slip.Class, method *slip.Method, combo *slip.Comb
 		mm[method.Name] = m
 		return
 	}
+	// The combinations are kept in precedence order, the class itself first
+	// and then the inherited classes in order. Insert the new combination
+	// after the combinations from classes that precede super in that order.
+	order := append([]slip.Class{class}, class.InheritsList()...)
+	rank := func(c slip.Class) int {
+		for i, oc := range order {
+			if oc == c {
+				return i
+			}
+		}
+		return len(order)
+	}
+	sr := rank(super)
 	var pos int
-	if pos < len(m.Combinations) && m.Combinations[pos].From == class {
+	for pos < len(m.Combinations) && rank(m.Combinations[pos].From) < sr {
 		pos++
 	}
-	for _, f := range class.InheritsList() {
-		if len(m.Combinations) <= pos || m.Combinations[pos].From == super {
-			break
-		}
-		if m.Combinations[pos].From == f {
-			pos++
-		}
-	}
-	m.Combinations = append(append(m.Combinations[:pos], combo), m.Combinations[pos:]...)
+	combos := make([]*slip.Combination, 0, len(m.Combinations)+1)
+	combos = append(combos, m.Combinations[:pos]...)
+	combos = append(combos, combo)
+	m.Combinations = append(combos, m.Combinations[pos:]...)
 }
 
 // DefCallerMethod defines a method for a caller.
